@@ -1,6 +1,6 @@
 """C06: responses are framed: ';' between units, ',' between items, one terminator."""
 import json
-import lib, parser_common as pc
+import lib, parser_common as pc, suite_traces
 
 def kind(rec, rel, hints):
     h = set(hints)
@@ -20,11 +20,13 @@ def run(pid, tier):
     rep.cov['rule'] = ('cases = messages of 1..N units (N = 3 quick, 4 thorough) over 14 scripted unit kinds (queries emitting 0..3 items of type int/text/bool/mnemonic/block/streamed block, '
                        'succeeding, failing silently, failing with own error, commands) after no / a responding / a failing previous message; enumerated by TLC, executed, validated by TLC; '
                        'non-trivial = >= 2 units respond, or a unit fails after emitting, or a query emits nothing')
-    rep.assumptions += ['only query units emit result items (a non-query that emits output is outside the statement)']
+    rep.assumptions += ['hook traces of the four unmodified CUnit programs (ASan+UBSan build) are validated by TVSuite; direct writes of test code to the status byte suspend the C11 clause until the next message',
+                        'only query units emit result items (a non-query that emits output is outside the statement)']
     n = 3 if tier == 'quick' else 4
     scen = pc.gen(rep, 'C06', dict(MaxUnits=n), nparts=14)
     obs = pc.execute(rep, scen, 'default', 'C06')
     pc.validate(rep, 'C06', scen, obs, 'C06-default', kindfn=kind)
+    suite_traces.validate(rep, 'C06:')      # hook traces of the repository's own test programs
     nt = [s for s in scen if nontrivial(s)]
     rep.cov['distinct_nontrivial'] = len(nt)
     rep.cov['exhaustive'] = True
